@@ -360,12 +360,15 @@ func (obj *SparseConstFloat64VectorJointIterator) Index() int {
   return obj.idx
 }
 func (obj *SparseConstFloat64VectorJointIterator) Ok() bool {
-  return !(obj.s1.GetFloat64() == float64(0)) ||
-         !(obj.s2.GetFloat64() == float64(0))
+  return obj.idx != -1
 }
 func (obj *SparseConstFloat64VectorJointIterator) Next() {
   ok1 := obj.it1.Ok()
   ok2 := obj.it2.Ok()
+  if !ok1 && !ok2 {
+    // all iterators are exhausted
+    obj.idx = -1
+  }
   obj.s1 = ConstFloat64(0)
   obj.s2 = ConstFloat64(0)
   if ok1 {
